@@ -274,3 +274,35 @@ func VerifH_C17_deep() {
 	verifAssert(p.Pos() == off, "final Pos()")
 	verifReach("done")
 }
+
+// VerifH_C17_bulk: a bulk Read larger than the buffer starting from a drained buffer (pos == used), followed by
+// a seek back into the region just read and a fixed-size read: the value must come from the requested offset.
+func VerifH_C17_bulk() {
+	L := 5000
+	data := verifBytes("data", L)
+	f := &verifRSS{data: data}
+	p := New(f)
+	pre := []int{0, 2, 1024}[verifChoose("prefix", 3)]
+	if pre > 0 {
+		b, err := p.ReadBytes(pre)
+		verifAssert(err == nil && verifSame(b, data[:pre]), "prefix read")
+	}
+	off := int64(pre)
+	n := []int{1024, 2048, 2100, 3000}[verifChoose("bulk", 4)]
+	buf := make([]byte, n)
+	k, err := p.Read(buf)
+	verifAssert(err == nil && k == n && verifSame(buf, data[off:off+int64(n)]), "bulk read data")
+	off += int64(n)
+	verifAssert(p.Pos() == off, "position after the bulk read")
+	// seek back by a symbolic amount (into or before the internal window) and read again
+	back := int64(verifU16("back"))
+	verifAssume(back <= 1100 && back <= off)
+	q := off - back
+	verifAssert(p.SeekPos(q) == nil, "seek back")
+	v, err := p.ReadUint16()
+	if q+2 <= int64(L) {
+		verifAssert(err == nil && v == uint16(data[q])<<8|uint16(data[q+1]), "value after seeking back is the file content at that offset")
+	}
+	verifAssert(p.Pos() == q+2 || err != nil, "position")
+	verifReach("done")
+}
